@@ -75,11 +75,12 @@ def main():
 
 def run_checks(sid, dst, checks, meta):
     # ---- run the checks against /repo with the patch applied
-    rc, out = sh("git -C /repo status --porcelain")
+    repo = os.environ.get("VERIF_REPO", "/repo")      # a snapshot when run through `vp run --with-repo`
+    rc, out = sh("git -C %s status --porcelain" % repo)
     if out.strip():
-        print("refusing: /repo is not clean:\n" + out)
+        print("refusing: %s is not clean:\n" % repo + out)
         sys.exit(2)
-    rc, out = sh("git -C /repo apply %s" % os.path.join(dst, "patch.diff"))
+    rc, out = sh("git -C %s apply %s" % (repo, os.path.join(dst, "patch.diff")))
     if rc != 0:
         print("patch does not apply to /repo: " + out)
         sys.exit(2)
@@ -101,7 +102,7 @@ def run_checks(sid, dst, checks, meta):
             for s in sigs[:3]:
                 print("    " + s[:200])
     finally:
-        sh("git -C /repo checkout -- .")
+        sh("git -C %s checkout -- ." % repo)
 
 
 if __name__ == "__main__":
